@@ -63,25 +63,30 @@ def state_check(sd, hist):
     for side in (a, b):
         if isinstance(side.get("save"), tuple) and side["save"][0] == "save":
             side["save"] = ("save", json.dumps(json.loads(side["save"][1]), sort_keys=True))
-    # "interleaving analyses changes no later result": the same history again with a bundle of analyses after EVERY op of it
+    # "interleaving analyses changes no later result": the same history again for EVERY placement of an analysis bundle between its ops
+    # (after the seed and/or after each op but the last): all 2^len(hist) - 1 non-empty placements
     if hist:
-        from ..common import quiet_call
-        from sysloss.diagram import make_hdiag
-        import os
-        s2 = e2.mk(sd)
-        gh = ()
-        for op in e2.SEEDS[sd]:
-            gh, _ = e2.step(s2, gh, op)
-        for op in hist:
-            gh, _ = e2.step(s2, gh, op)
-            for name in ("solve_energy", "save", "diag"):
-                all_reports(s2, [name])
-        c = all_reports(s2, REPORTS)
-        if isinstance(c.get("save"), tuple) and c["save"][0] == "save":
-            c["save"] = ("save", json.dumps(json.loads(c["save"][1]), sort_keys=True))
-        for rep, d in diff_reports(c, b, 1e-9, 1e-12)[:3]:
-            what = __import__("re").sub(r"^\(.*?\)\s*", "", d).split(":")[0][:40] if isinstance(c.get(rep), dict) else "value"
-            v.append(((PROP + ".differs-after-interleaved-analyses", rep, what, last), "after %r with analyses in between: %s" % (hist[-1], d)))
+        import itertools as _it
+        LIGHT = ["solve_energy", "rail_rep", "save", "diag"]
+        points = list(range(len(hist)))  # point j = just before hist[j]  (0 = right after the seed)
+        for r in range(1, len(points) + 1):
+            for place in _it.combinations(points, r):
+                s2 = e2.mk(sd)
+                gh = ()
+                for op in e2.SEEDS[sd]:
+                    gh, _ = e2.step(s2, gh, op)
+                for j, op in enumerate(hist):
+                    if j in place:
+                        for name in ("solve_energy", "save", "diag"):
+                            all_reports(s2, [name])
+                    gh, _ = e2.step(s2, gh, op)
+                c = all_reports(s2, LIGHT)
+                if isinstance(c.get("save"), tuple) and c["save"][0] == "save":
+                    c["save"] = ("save", json.dumps(json.loads(c["save"][1]), sort_keys=True))
+                bb = {k: b[k] for k in LIGHT}
+                for rep, d in diff_reports(c, bb, 1e-9, 1e-12)[:2]:
+                    what = __import__("re").sub(r"^\(.*?\)\s*", "", d).split(":")[0][:40] if isinstance(c.get(rep), dict) else "value"
+                    v.append(((PROP + ".differs-after-interleaved-analyses", rep, what, last), "after %r with analyses before op(s) %r: %s" % (hist[-1], place, d)))
     for rep, d in diff_reports(a, b, 1e-9, 1e-12)[:3]:
         what = __import__("re").sub(r"^\(.*?\)\s*", "", d).split(":")[0][:40] if isinstance(a.get(rep), dict) else "value"
         v.append(((PROP + ".differs-from-fresh", rep, what, last), "after %r: %s" % (hist[-1] if hist else None, d)))
@@ -120,7 +125,7 @@ def main(tier):
     return run.finish(
         rule="E2: every distinct state (K_full) reached by histories of depth <= %d, budget <= %d from 8 seeds (quick: budget 1 from all 8 seeds over letters R,I,M,W and budget 2 from the rails seed over C,I) (edit + phase ops, re-adding deleted names, 3-input muxes, and a solve(energy=True) call in the middle of the history)%s; per state: reference edit semantics vs the structure read "
              "from the object (names, kinds, parameters, parent lists with PMux priority order, rails, groups, phase configs, system phases), all 8 reports succeed, and all reports equal "
-             "(keyed, 1e-9) those of a fresh system built from that structure in canonical order -- once for the plain history and once with solve(energy)/save/make_diag called after every op of it. non-trivial = states first reached through change_comp / del_comp." % (
+             "(keyed, 1e-9) those of a fresh system built from that structure in canonical order -- for the plain history and for every placement of a solve(energy)/save/make_diag bundle between its ops (after the seed, between the ops). non-trivial = states first reached through change_comp / del_comp." % (
                  D, B, "" if tier == "quick" else "; plus depth 4, budget 1 over 3 letters from the mux and freed-index seeds"),
         states=st["states"], transitions=st["transitions"], traces=st["state_checks"],
         extra={"per_depth": st["per_depth"], "bound_completed": {"depth": D, "budget": B}},
